@@ -483,4 +483,40 @@ theorem tie_workerGoBody : workerGoBody = [.callUser "mapper"] := by decide
 theorem tie_generatorGoBody : generatorGoBody = [.callUser "generate"] := by decide
 theorem tie_goDirective : goDirective.1 > 1 ∨ (goDirective.1 = 1 ∧ goDirective.2 ≥ 21) := by decide
 
+/-! ### round 5e: WHERE the per-call state comes from (typed allocation sites)
+
+The model starts every call from `init c`: empty panic buffer, no recorded error, nothing closed, a fresh once.  That
+is sound only if every piece of state of a call is allocated BY that call.  `Props6.stale_panic_buffer_is_reraised`
+shows what a recycled panic channel does (seeded C10-9: a sync.Pool of onceChans). -/
+
+/-- allocated by the call itself (a `freshCall` is resolved by the tie of the called constructor). -/
+def isPerCall : Alloc → Bool
+  | .other _ => false
+  | _ => true
+
+theorem tie_coreState : coreState =
+    [("options", .freshCall "buildOptions"), ("output", .makeChan "0"), ("collector", .makeChan "options.workers"),
+     ("done", .makeChan "0"), ("retErr", .localVar "errorx.AtomicError"), ("closeOnce", .localVar "sync.Once")] := by decide
+
+/-- every entry point gets its panic channel from `newOnceChan`, which returns a fresh literal with a fresh channel of
+capacity 1 (never a pooled / package-level object). -/
+theorem tie_mapReduceState : mapReduceState = [("panicChan", .freshCall "newOnceChan"), ("source", .freshCall "buildSource")] := by decide
+theorem tie_mapReduceChanState : mapReduceChanState = [("panicChan", .freshCall "newOnceChan")] := by decide
+theorem tie_forEachState : forEachState =
+    [("options", .freshCall "buildOptions"), ("panicChan", .freshCall "newOnceChan"), ("source", .freshCall "buildSource"),
+     ("collector", .makeChan "0"), ("done", .makeChan "0")] := by decide
+theorem tie_newOnceChanAlloc : newOnceChanAlloc = .addrOfLiteral [("channel", "make(chan any, 1)")] := by decide
+theorem tie_newOptionsAlloc : newOptionsAlloc =
+    .addrOfLiteral [("ctx", "context.Background()"), ("workers", "defaultWorkers")] := by decide
+theorem tie_constructorStates : executeMappersState = [("pool", .makeChan "mCtx.workers")] ∧
+    buildSourceState = [("source", .makeChan "0")] ∧ buildOptionsState = [("options", .freshCall "newOptions")] ∧
+    onceState = [("once", .newOf "sync.Once")] := by decide
+
+/-- nothing of it comes from anywhere else, and the package has no variable besides the two immutable sentinels. -/
+theorem tie_all_state_per_call :
+    (coreState ++ mapReduceState ++ mapReduceChanState ++ forEachState ++ executeMappersState ++ buildSourceState ++
+      buildOptionsState ++ onceState).all (fun p => isPerCall p.2) = true ∧
+    isPerCall newOnceChanAlloc = true ∧ isPerCall newOptionsAlloc = true := by decide
+theorem tie_packageState : packageState = [.sentinel "ErrCancelWithNil", .sentinel "ErrReduceNoOutput"] := by decide
+
 end GoZero.C10.Tie
